@@ -7,6 +7,8 @@ import (
 	"os"
 	"path/filepath"
 	"runtime"
+	"runtime/debug"
+	"runtime/pprof"
 	"strings"
 	"time"
 
@@ -74,7 +76,14 @@ func main() {
 	sites := flag.Bool("sites", false, "record the source site of every symbolic decision in violations")
 	cross := flag.String("cross", "", "comma-separated secondary solvers for differential check (z3-new,cvc5)")
 	replay := flag.String("replay", "", "replay a violation json in concrete mode")
+	cpuprof := flag.String("cpuprofile", "", "write cpu profile")
 	flag.Parse()
+	debug.SetGCPercent(800)
+	if *cpuprof != "" {
+		f, _ := os.Create(*cpuprof)
+		pprof.StartCPUProfile(f)
+		defer pprof.StopCPUProfile()
+	}
 	var replayViol *Violation
 	if *replay != "" {
 		b, err := os.ReadFile(*replay)
